@@ -12,7 +12,7 @@ import gram
 from impl import trees, treeoutput, treeinput, treeanalysis, quiet, clone
 
 ID = "C03"
-MODULE = ['TT.Props.C03', 'TT.Props.C03Own', 'TT.Props.C03Options', 'TT.Props.C03Run', 'TT.Props.C03Run2', 'TT.Props.C03Total', 'TT.Props.C03Chain', 'TT.Props.C18Src', 'TT.Props.C03Words', 'TT.Props.C03Cmd']
+MODULE = ['TT.Props.C03', 'TT.Props.C03Own', 'TT.Props.C03Options', 'TT.Props.C03Run', 'TT.Props.C03Run2', 'TT.Props.C03Total', 'TT.Props.C03Chain', 'TT.Props.C18Src', 'TT.Props.C03Words', 'TT.Props.C03Cmd', 'TT.Props.C18Dir']
 RULE = ("`treetools transform` on generated treebanks (1..4 sentences) for all 4x5 (source, destination) format pairs, "
         "A->B->A chains, own-format round trips, encodings utf-8 / latin-1 / utf-16 on either side, gzip sources, "
         "directory sources, export v3/v4. The destination is decoded by the specification decoder and compared with "
@@ -266,6 +266,11 @@ def gen(seed, tier, scale):
     rngs = [case_rng(seed, ID, 750000 + i) for i in range(nw)]
     for i, c in enumerate(cli.pmap(srccases.dest_words_case, rngs)):
         yield 750000 + i, c
+    # wave 19: a DIRECTORY of several source files (plain / gzip, different sizes, one rejected) against TT.runDirCmd
+    import dircases
+    rngs = [case_rng(seed, ID, 820000 + i) for i in range((20 if tier == "quick" else 300) * scale)]
+    for i, c in enumerate(cli.pmap(dircases.dir_case, rngs)):
+        yield 820000 + i, c
     idx = 100000
     for _ in range((300 if tier == "quick" else 5000) * scale):
         rng = case_rng(seed, ID, idx)
